@@ -341,4 +341,25 @@ theorem cog18_admissible (p : Cog18.P) (r t : ℝ) (hρ : 0 < p.rho0) (hΓ : 0 <
   have hp0 : 0 ≤ Cog18.pressure p r t := by rw [hp]; positivity
   exact ⟨hd, hT, hp0, by rw [he]; positivity⟩
 
+/-! ### non-vacuity of the remaining hypothesis sets (class defaults; α = -3/2 inside the advised range) -/
+
+example : ∃ (p : Cog2.P) (r : ℝ), 1 < p.gamma ∧ 0 < p.rho0 ∧ 0 < p.Gamma ∧ 0 < p.b + 2 ∧ 0 < p.geometry ∧ 0 < r :=
+  ⟨⟨40, 0, 0, 6 / 5, 0, 0, 7 / 5, 3, 0, 9 / 5⟩, 1, by norm_num, by norm_num, by norm_num, by norm_num, by norm_num,
+    by norm_num⟩
+
+example : ∃ (p : Cog6.P) (r t : ℝ), 0 < p.rho0 ∧ 0 < p.Gamma ∧ 0 < p.b + 2 ∧ 0 < p.geometry ∧ 0 < r ∧
+    t ^ 2 < p.tau ^ 2 :=
+  ⟨⟨40, 0, 0, 6 / 5, 0, 0, 3, 0, 9 / 5, 5 / 4⟩, 1, 1, by norm_num, by norm_num, by norm_num, by norm_num, by norm_num,
+    by norm_num⟩
+
+example : ∃ (p : Cog9.P) (r : ℝ), 1 < p.gamma ∧ 0 < p.rho0 ∧ 0 < p.Gamma ∧ p.alpha ≤ 0 ∧ 0 ≤ p.beta ∧
+    1 ≤ p.geometry ∧ 0 < r :=
+  ⟨⟨40, 0, -3 / 2, 0, 1, 0, 0, 7 / 5, 3, 0, 9 / 5⟩, 1, by norm_num, by norm_num, by norm_num, by norm_num, by norm_num,
+    by norm_num, by norm_num⟩
+
+example : ∃ (p : Cog18.P) (r t : ℝ), 0 < p.rho0 ∧ 0 < p.Gamma ∧ p.alpha ≤ 0 ∧ 0 ≤ p.beta ∧ 1 ≤ p.geometry ∧ 0 < r ∧
+    t ^ 2 < p.tau ^ 2 :=
+  ⟨⟨40, 0, -3 / 2, 0, 1, 0, 0, 3, 0, 9 / 5, 5 / 4⟩, 1, 1, by norm_num, by norm_num, by norm_num, by norm_num,
+    by norm_num, by norm_num, by norm_num⟩
+
 end EPV.C17
